@@ -182,3 +182,39 @@ Fixpoint run_traced (n : nat) (max_cycles : Z) (s : sim) (inp : inputs) (evs : l
            | SOk (s', inp', e) => run_traced k max_cycles s' inp' (e :: evs)
            end
   end.
+
+(* ------------------------------------------------------------------ debug symbols and the trace prefix (C15) *)
+(* debugInfo: (name, byte offset) in file order; debugInfoMap: name -> offset (a later duplicate overwrites) *)
+Definition symtab := list (string * Z).
+
+(* lookupSymbol(): linear scan assuming ascending offsets *)
+Fixpoint lookup_scan (tab : symtab) (pc : Z) : option string :=
+  match tab with
+  | [] => None
+  | (n, o) :: r =>
+      match r with
+      | [] => if o <=? pc then Some n else None                      (* i == size-1 && lastPC >= second *)
+      | (_, o2) :: _ => if (o <=? pc) && (pc <? o2) then Some n else lookup_scan r pc
+      end
+  end.
+Definition lookup_symbol (tab : symtab) (pc : Z) : option string :=
+  match tab with
+  | [] => None
+  | (_, o0) :: _ => if pc <? o0 then None else lookup_scan tab pc
+  end.
+Fixpoint map_offset (tab : symtab) (name : string) (acc : Z) : Z :=
+  match tab with
+  | [] => acc
+  | (n, o) :: r => map_offset r name (if String.eqb n name then o else acc)
+  end.
+(* the "symbol+offset" column *)
+Definition trace_symbol (tab : symtab) (pc : Z) : option (string * Z) :=
+  match lookup_symbol tab pc with
+  | Some n => Some (n, pc - map_offset tab n 0)
+  | None => None
+  end.
+(* the five leading columns of a trace line, printed before the instruction executes:
+   cycles, lastPC, symbol+offset, mnemonic (as opcode number), instr & 0xF *)
+Definition trace_prefix (tab : symtab) (s : sim) : Z * Z * option (string * Z) * Z * Z :=
+  let instr := sim_fetch s in
+  (s_cycles s, s_pc s, trace_symbol tab (s_pc s), Z.land (Z.shiftr instr 4) 15, Z.land instr 15).
